@@ -27,6 +27,21 @@ identity), an independently constructed fresh object with the same content must 
 same bytes, write() must leave the public state as it was, and the session model (`Model/UcdHist.lean`) must hold, at the
 end, exactly the files on disk.  An object whose public views disagree with each other (aggregate element view vs
 per-type blocks) is outside the property: counted under `outside`, never reported.
+
+Round 5 (seeded change C04-9: `_align_data` through a dense table indexed by the id, negative ids wrap around): "arbitrary
+node / element ids" now includes ids that are not positive.  Dimension SIGNED IDS (22% of the main stream, 40% of
+own-id-order; node ids, element ids or both are replaced through a monotone map, so the storage-order class is kept):
+dense ranges through zero (every negative id -k lives next to the id max+1-k), zero-based, all negative, sparse around
+zero with -1 and 0, mirror pairs k / -k, a few negative ids next to ids ~1e6 / ~2e9, ids at and beyond the limits of the
+32-bit integers; histories renumber through zero (negative offsets).  Dimension ID DTYPE (25%): the id arrays and the
+connectivity are handed over as int8 .. int64 / uint8 .. uint32, one dtype for everything or one per array.  Dimension
+SQUARE (10%): as many elements as nodes.  Histories may start from a DERIVED object (to_first_order / resolve_degeneracy /
+to_surface of the constructed one, optionally after the parent has been written).  Stream `large` (oracle only): one
+object per quick run whose four tables (nodes, elements, nodal data, elemental data) all have more than 65536 rows.
+The Lean model of the file has natural-number ids: an object with a negative id is judged by the oracle (+ fresh object)
+and its two data blocks by the model of `_align_data` over integer ids (`Model/UcdAlignInt.lean`, `c04.align`:
+ACfg.dict = rows found by id as a key; ACfg.denseTable = ids used as array positions).  corpus/C04 holds two fixed objects
+(ids -1..6 with private orders; ids at the int32 limits) that are run first on every run.
 """
 import math
 import struct
@@ -43,8 +58,12 @@ THEOREMS = ['C04_offsets', 'C04_roundtrip', 'C04_roundtrip_printed', 'C04_tet2_f
             'C04_bound_to_same_ids_own_order', 'C04_own_order_counterexample_upstream', 'C04_lex_print_line',
             'C04_roundtrip_lines', 'C04_roundtrip_chars', 'C04_roundtrip_chars_printed', 'C04_own_order_chars',
             'C04_history_roundtrip', 'C04_write_leaves_object', 'C04_second_write_same_file',
-            'C04_file_of_public_state_only', 'C04_stale_frame_counterexample']
+            'C04_file_of_public_state_only', 'C04_stale_frame_counterexample',
+            'C04_align_by_key', 'C04_align_any_sign', 'C04_dense_table_counterexample']
 PARTIAL = [
+    'ids of any sign: C04_align_by_key / C04_align_any_sign state the id binding of _align_data for integer ids of any sign '
+    '(rows found by id as a key); the character-level round trip theorems (C04_roundtrip_chars ...) are stated for natural-number '
+    'ids (Tok.n); the printing / lexing of a leading minus sign of an id is not modelled (oracle only)',
     'C04_roundtrip_printed / C04_roundtrip_chars_printed: parametric in (print, parse) with the hypotheses '
     'parse (print v) = v and valOKB (print v); that Python\'s shortest repr / float() satisfy the first is trusted and '
     'exercised by the special-value stream (bit patterns compared); the second is a Boolean function the driver '
@@ -78,13 +97,25 @@ RULE = ('random combinatorial mesh (1-3 element types out of line, spring, tri, 
         'slice / scalar write-through; update / update_data(allow_overwrite=True); overwrite with / without ids; pop / add '
         'variables; elements.update and elemental block updates; renumbering nodes / elements by a permutation of the same ids, '
         'an offset or rank reversal), then one or two final writes (other file / same file with overwrite=True); expectation = '
-        'snapshot of the public ids / data views just before write(); every history is replayable from its JSON description')
+        'snapshot of the public ids / data views just before write(); every history is replayable from its JSON description. '
+        'Dimension SIGNED IDS (22% main / 40% own-id-order): node and / or element ids replaced through a monotone map by a '
+        'dense range through zero, zero-based, all negative, sparse around zero, mirror pairs, negative next to ~1e6 / ~2e9, ids '
+        'at / beyond the int32 limits; negative renumbering offsets in histories. Dimension ID DTYPE (25%): ids / connectivity '
+        'as int8..int64, uint8..uint32. Dimension SQUARE (10%): n_elements == n_nodes. Histories may start from an object '
+        'derived by to_first_order / resolve_degeneracy / to_surface (16% of the histories; parent optionally written first). '
+        'Stream large (oracle only; 1 per quick run with all four tables > 65536 rows, 6 per thorough run of three shapes). '
+        'Corpus: 2 fixed signed-id objects')
 ASSUMPTIONS = [
     'the ids of a nodal (elemental) variable are a permutation of the mesh\'s node (element) ids; the row order of each '
     'variable is its own (aligned with the mesh in the main stream, private per variable in the stream own-id-order)',
     'variable names are identifiers without comma or blank; NaNs are compared as NaN (one token; sign / payload of a NaN '
     'are not representable in the text format)',
-    'node and element ids are positive integers below 2**53 (the reader converts ids through float)',
+    'node and element ids are integers of any sign with magnitude below 2**53 (the reader converts ids through float); '
+    'the character-level Lean model has natural-number ids: objects with a negative id (about 20% of the cases) are judged by '
+    'the oracle, by the comparison with a fresh object and by the _align_data model over integer ids (c04.align) only',
+    'id arrays are handed over in integer dtypes that hold their values (int8 .. int64, uint8 .. uint32); uint64 is left out '
+    'because numpy promotes uint64 next to a signed integer array to float64 (the file then carries ids like "1.0", which read '
+    'back exactly but are not what the byte-level tie expects)',
     'polygon / polyhedron elements (object connectivity) and second-order types other than tet2 (the writer raises) are '
     'outside the property',
     'the mesh "with its data" of an object that has a history is its PUBLIC state at the time of write(): ids / data of '
@@ -184,6 +215,103 @@ def rename_some(rnd, vars_, aligned):
                 v['how'] = rnd.choice(['setitem', 'update'] + (['set_attribute_data'] if aligned else []))
 
 
+# ids that are not all positive ("arbitrary node / element ids"): zero, negative ids, negative ids next to large positive
+# ones, ids at the limits of the 32-bit integers.  Everything that turns an id into an array position (a dense lookup table
+# of size max+1 indexed with wrap-around, `ids - min`, searchsorted on a table sorted as unsigned), that uses -1 / 0 as
+# "not found" / "no id", or that keeps ids in a 32-bit / unsigned integer is right on positive ids and wrong on these.
+SIGNED_STYLES = ['through-zero', 'through-zero', 'through-zero', 'zero-based', 'negative-dense', 'negative-sparse', 'mirror',
+                 'negative+large', 'int-limits']
+INT_LIMITS = [-2**31 - 1, -2**31, -2**31 + 1, -2**16, -1, 0, 1, 2**16, 2**31 - 1, 2**31, 2**31 + 1, 2**32 - 1, 2**32, 2**32 + 1]
+
+
+def signed_ids(rnd, n, style):
+    """n distinct integer ids (any sign) of the given style, ascending"""
+    if style == 'through-zero':         # a dense range -a .. b (b >= 0): every negative id -k lives next to the id max+1-k
+        a = rnd.randint(1, max(1, n - 1))
+        ids = range(-a, n - a)
+    elif style == 'zero-based':
+        ids = range(n)
+    elif style == 'negative-dense':
+        a = rnd.choice([0, 0, 1, 5, 1000])
+        ids = range(-n - a, -a)
+    elif style == 'negative-sparse':
+        ids = set(rnd.sample(range(-50 * n - 1, 50 * n + 2), n))
+        ids = (sorted(ids - {-1, 0})[:n - 2] + [-1, 0]) if (n > 2 and rnd.random() < .5) else ids
+    elif style == 'mirror':             # k and -k both present (and 0 when n is odd)
+        ids = [sg * k for k in rnd.sample(range(1, 3 * n + 2), n // 2) for sg in (1, -1)] + ([0] if n % 2 else [])
+    elif style == 'negative+large':     # a few negative ids next to ids ~1e6 / ~2e9 (a dense table would be huge, a sparse guard is taken)
+        k = rnd.randint(1, max(1, n - 1))
+        base = rnd.choice([10**6, 2 * 10**9, 2**31 - n - 1])
+        ids = rnd.sample(range(-3 * n, 0), k) + rnd.sample(range(base, base + 2 * n + 1), n - k)
+    elif style == 'int-limits':
+        lim = rnd.sample(INT_LIMITS, min(n, rnd.randint(1, 4)))
+        ids = set(lim)
+        while len(ids) < n:
+            ids.add(rnd.choice(lim) + rnd.randint(-n, n))
+    else:
+        raise ValueError(style)
+    ids = sorted(set(int(i) for i in ids))
+    assert len(ids) == n, (style, n, ids)
+    return ids
+
+
+def resign(rnd, m):
+    """node and / or element ids of the mesh replaced by ids of a signed style through a MONOTONE map (the storage order
+    class of the mesh - ascending, descending, midshuf, swap2 ... - is kept)"""
+    which = rnd.choice(['nodes', 'elems', 'both', 'both'])
+    label = []
+    if which in ('nodes', 'both'):
+        old = sorted(i for i, _ in m['nodes'])
+        st = rnd.choice(SIGNED_STYLES)
+        mp = dict(zip(old, signed_ids(rnd, len(old), st)))
+        m['nodes'] = [(mp[i], p) for i, p in m['nodes']]
+        m['blocks'] = {t: [(e, [mp[x] for x in c]) for e, c in b] for t, b in m['blocks'].items()}
+        label.append('n:' + st)
+    if which in ('elems', 'both'):
+        old = sorted(e for b in m['blocks'].values() for e, _ in b)
+        st = rnd.choice(SIGNED_STYLES)
+        mp = dict(zip(old, signed_ids(rnd, len(old), st)))
+        m['blocks'] = {t: [(mp[e], c) for e, c in b] for t, b in m['blocks'].items()}
+        label.append('e:' + st)
+    m['id_style'] = m['id_style'] + '/' + ','.join(label)
+    return m
+
+
+# (uint64 is left out on purpose: numpy promotes uint64 together with any signed integer to float64, so an object that holds one
+# uint64 id array next to an int64 one has float ids in its aggregate views and "1.0" in its file - it still reads back
+# exactly, but the byte-level tie would flag a numpy rule, not femio)
+INT_DTYPES = ['int64', 'int32', 'int16', 'int8', 'uint32', 'uint16', 'uint8']
+
+
+def fitting_dtype(rnd, ids):
+    lo, hi = min(ids), max(ids)
+    return rnd.choice([d for d in INT_DTYPES if np.iinfo(d).min <= lo and hi <= np.iinfo(d).max])
+
+
+def id_dtypes(rnd, nids, eids):
+    """integer dtypes of the id arrays the caller hands to femio (every one can hold its ids): node ids, connectivity,
+    element ids, own ids of the nodal / elemental variables"""
+    if rnd.random() < .5:        # one non-default dtype for everything it fits
+        d = fitting_dtype(rnd, nids + eids)
+        return {k: d for k in ('nodes', 'conn', 'elems', 'nodal', 'elem')}
+    return {'nodes': fitting_dtype(rnd, nids), 'conn': fitting_dtype(rnd, nids), 'elems': fitting_dtype(rnd, eids),
+            'nodal': fitting_dtype(rnd, nids), 'elem': fitting_dtype(rnd, eids)}
+
+
+P_SIGNED, P_SIGNED_OWN, P_DTYPE, P_SQUARE = .22, .4, .25, .1
+
+
+def square_mesh(rnd, types):
+    """a mesh with as many elements as nodes (a length alone does not tell a nodal from an elemental table)"""
+    need = max(G.ARITY[t] for t in types)
+    for _ in range(60):
+        k = rnd.randint(max(need, len(types)), need + 6)
+        m = G.gen_combinatorial(rnd, types=types, n_nodes=k, max_elems=k)
+        if sum(len(b) for b in m['blocks'].values()) == k:
+            return m
+    return m
+
+
 def gen_case(rnd, own_orders=False):
     """-> JSON-able description from which `build` makes the FEMData; own_orders: every variable keeps its rows in a
     private id order, and at least one family (nodal / elemental) has two or more variables"""
@@ -194,11 +322,16 @@ def gen_case(rnd, own_orders=False):
         types = [rnd.choice(UCD_TYPES)]
     else:
         types = rnd.sample(UCD_TYPES, rnd.randint(2, 3))
-    m = G.gen_combinatorial(rnd, types=types, max_elems=max(len(types), rnd.choice([1, 3, 6, 12])))
-    for _ in range(20 if own_orders else 0):      # private orders need a few rows to differ from each other
-        if sum(len(b) for b in m['blocks'].values()) >= 4:
-            break
-        m = G.gen_combinatorial(rnd, types=types, max_elems=max(len(types), rnd.choice([6, 9, 12])))
+    if rnd.random() < P_SQUARE:
+        m = square_mesh(rnd, types)
+    else:
+        m = G.gen_combinatorial(rnd, types=types, max_elems=max(len(types), rnd.choice([1, 3, 6, 12])))
+        for _ in range(20 if own_orders else 0):      # private orders need a few rows to differ from each other
+            if sum(len(b) for b in m['blocks'].values()) >= 4:
+                break
+            m = G.gen_combinatorial(rnd, types=types, max_elems=max(len(types), rnd.choice([6, 9, 12])))
+    if rnd.random() < (P_SIGNED_OWN if own_orders else P_SIGNED):
+        m = resign(rnd, m)
     sp = rnd.choice([0, .05, .3])
     nodes = [[i, [rand_float(rnd, sp) if sp else float(v) for v in p]] for i, p in m['nodes']]
     nids = [i for i, _ in nodes]
@@ -226,8 +359,11 @@ def gen_case(rnd, own_orders=False):
     if rnd.random() < .4:
         rename_some(rnd, nv, aligned=not own_orders)
         rename_some(rnd, ev, aligned=not own_orders)
-    return {'nodes': nodes, 'blocks': blocks, 'nodal_vars': nv, 'elem_vars': ev, 'pop_node': pop_node,
+    case = {'nodes': nodes, 'blocks': blocks, 'nodal_vars': nv, 'elem_vars': ev, 'pop_node': pop_node,
             'kind': m['kind'], 'order': m['order'], 'id_style': m['id_style']}
+    if rnd.random() < P_DTYPE:
+        case['id_dtypes'] = id_dtypes(rnd, nids, eids)
+    return case
 
 
 def enc_f(x):
@@ -255,9 +391,10 @@ def from_json(j):
             'elem_vars': [{**v, 'data': fl(v['data'])} for v in j['elem_vars']]}
 
 
-def attach(fd, fam, v, keep=None):
+def attach(fd, fam, v, keep=None, idt=None):
     """store the variable under the KEY v['name'] of fd.nodal_data (fam 'nodal') / fd.elemental_data (fam 'elem'); its
-    FEMAttribute.name is v['attr'] (default: the key).  keep: the arrays handed to femio are recorded (caller-side aliases)"""
+    FEMAttribute.name is v['attr'] (default: the key).  keep: the arrays handed to femio are recorded (caller-side aliases);
+    idt: integer dtype of the id array handed to femio"""
     from femio import FEMAttribute, FEMElementalAttribute
     attrs = fd.nodal_data if fam == 'nodal' else fd.elemental_data
     if fam == 'nodal':
@@ -266,7 +403,7 @@ def attach(fd, fam, v, keep=None):
     else:
         def make(name, ids, data):
             return FEMElementalAttribute(name, data, ids=ids)
-    key, attr, ids, data = v['name'], v.get('attr', v['name']), np.array(v['ids']), np.array(v['data'], dtype=float)
+    key, attr, ids, data = v['name'], v.get('attr', v['name']), np.array(v['ids'], dtype=idt), np.array(v['data'], dtype=float)
     if keep is not None:
         keep[(fam, key)] = data
     how = v['how']
@@ -291,19 +428,20 @@ def attach(fd, fam, v, keep=None):
 def build(case, keep=None):
     """the FEMData of the case AS CONSTRUCTED (the history of the case, if any, is applied by `prepare`)"""
     from femio import FEMData, FEMAttribute, FEMElementalAttribute
+    dt = case.get('id_dtypes') or {}
     xyz = np.array([p for _, p in case['nodes']], dtype=float)
-    conn = {t: np.array([c for _, c in b]) for t, b in case['blocks'].items()}
-    nodes = FEMAttribute('NODE', ids=np.array([i for i, _ in case['nodes']]), data=xyz, silent=True)
-    el = {t: FEMAttribute(t, ids=np.array([e for e, _ in b]), data=conn[t], silent=True)
+    conn = {t: np.array([c for _, c in b], dtype=dt.get('conn')) for t, b in case['blocks'].items()}
+    nodes = FEMAttribute('NODE', ids=np.array([i for i, _ in case['nodes']], dtype=dt.get('nodes')), data=xyz, silent=True)
+    el = {t: FEMAttribute(t, ids=np.array([e for e, _ in b], dtype=dt.get('elems')), data=conn[t], silent=True)
           for t, b in case['blocks'].items()}
     fd = FEMData(nodes=nodes, elements=FEMElementalAttribute('ELEMENT', G.insertion_order(el)))
     if keep is not None:
         keep[('nodes', None)] = xyz
         keep.update({('conn', t): a for t, a in conn.items()})
     for v in case['nodal_vars']:
-        attach(fd, 'nodal', v, keep)
+        attach(fd, 'nodal', v, keep, dt.get('nodal'))
     for v in case['elem_vars']:
-        attach(fd, 'elem', v, keep)
+        attach(fd, 'elem', v, keep, dt.get('elem'))
     if case['pop_node']:
         fd.nodal_data.pop('NODE')
     elif case.get('node_pos'):
@@ -323,6 +461,9 @@ def build(case, keep=None):
 #                 'mods': [op ...]          modifications through public means, in this order (concrete arguments, JSON)
 #                 'writes': 1 | 2           the final state is written once / twice ('second': other file | same file, overwrite=True)}
 # The expected content of the file is that of the object's public state (`ids` / `data` views) just before write().
+
+DERIVATIONS = ['to_first_order', 'to_first_order', 'resolve_degeneracy', 'to_surface']
+
 
 class HistoryError(Exception):
     """a step BEFORE the final write raised or does not apply: not the subject of C04 (the case is skipped and counted)"""
@@ -630,7 +771,8 @@ def pick_op(rnd, fd, keep, allow_caller):
             k = rnd.randrange(1, len(s)) if len(s) > 1 else 0
             m = dict(zip(s, s[k:] + s[:k]))
         elif style == 'offset':
-            d = rnd.choice([1, 7, 1000])
+            # ... also through zero: one id becomes 0 and the smaller ones negative / all ids negative
+            d = rnd.choice([1, 7, 1000, -1, -rnd.choice(s), -rnd.choice(s), -max(s) - rnd.choice([1, 2, 1000])])
             m = {i: i + d for i in s}
         else:
             m = dict(zip(s, s[::-1]))
@@ -655,11 +797,27 @@ def start_object(ctx, case, keep):
         if err:
             raise HistoryError('write / read before the history raises ' + err)
         keep.clear()
-    if h.get('pre_write'):
-        fd.c04_state_at_earlier_write, _ = real(snapshot, fd)
-        _, err = real(fd.write, 'ucd', d / ('mesh.inp' if h['pre_write'] == 'same' else 'earlier.inp'))
+    def earlier_write(o):
+        o.c04_state_at_earlier_write, _ = real(snapshot, o)
+        _, err = real(o.write, 'ucd', d / ('mesh.inp' if h['pre_write'] == 'same' else 'earlier.inp'))
         if err:
             raise HistoryError('the earlier write raises ' + err)
+    on_parent = bool(h.get('derive') and h.get('pre_write') and h.get('pre_on') == 'parent')
+    if on_parent:
+        earlier_write(fd)       # the PARENT has been written before the object is derived from it
+    if h.get('derive'):
+        # the object that is written is DERIVED from the constructed one (it may carry tables built for its parent and
+        # share arrays / attribute objects with it; the parent stays alive)
+        parent = fd
+        fd, err = real(getattr(parent, h['derive']))
+        if err:
+            raise HistoryError(f'{h["derive"]}() before the history raises ' + err)
+        fd.c04_parent = parent
+        if on_parent:
+            fd.c04_state_at_earlier_write = parent.c04_state_at_earlier_write
+        keep.clear()
+    if h.get('pre_write') and not on_parent:
+        earlier_write(fd)
     return fd
 
 
@@ -678,6 +836,7 @@ def gen_history(ctx, rnd, case):
     """adds case['hist']; the modifications are chosen against a live object so that their arguments are concrete.
     -> that object in its final state (= what `prepare(ctx, case)` rebuilds from the description), or None"""
     h = {'via_file': rnd.random() < .14, 'pre_write': rnd.choice([None, None, None, 'same', 'other']),
+         'derive': rnd.choice(DERIVATIONS) if rnd.random() < .16 else None, 'pre_on': rnd.choice(['parent', 'object']),
          'writes': rnd.choice([1, 1, 2]), 'second': rnd.choice(['other', 'same-overwrite']), 'mods': []}
     case['hist'] = h
     n_ops = rnd.choice([0, 1, 1, 2, 2, 3, 4])
@@ -689,11 +848,12 @@ def gen_history(ctx, rnd, case):
     except HistoryError:
         h['via_file'] = False
         h['pre_write'] = None
+        h['derive'] = None
         return None
     tries = 0
     while len(h['mods']) < n_ops and tries < 12:
         tries += 1
-        op, err = real(pick_op, rnd, fd, keep, not h['via_file'])
+        op, err = real(pick_op, rnd, fd, keep, not h['via_file'] and not h['derive'])
         if err:
             ctx.count('history: generator could not look at the object (' + err.split(':')[0] + ')')
             return None
@@ -740,6 +900,12 @@ def snapshot(fd):
             'blocks': {t: [[int(i), [int(n) for n in c]] for i, c in zip(b.ids, b.data)] for t, b in fd.elements.items()},
             'eids': [int(i) for i in fd.elements.ids],
             'nodal': tabs(fd.nodal_data), 'elem': tabs(fd.elemental_data)}
+
+
+def has_negative_id(snap):
+    """the Lean model of the file has natural-number ids (Tok.n): an object with a negative id is judged by the oracle and
+    by the comparison with a fresh object only (`signed ids: ...` counts), and its _align_data step by `c04.align`"""
+    return min([0] + snap['nodes'][0] + snap['eids'] + [n for b in snap['blocks'].values() for _, c in b for n in c]) < 0
 
 
 def snap_bits(snap):
@@ -898,7 +1064,7 @@ def brief(case):
             'pop_node': case['pop_node'],
             'key!=FEMAttribute.name': {v['name']: [v['attr'], v['how']] for v in case['nodal_vars'] + case['elem_vars']
                                        if v.get('attr', v['name']) != v['name']},
-            **({'history': {'object read from a UCD file first': h['via_file'], 'written before the modifications': h['pre_write'],
+            **({'history': {'object read from a UCD file first': h['via_file'], 'derived by': h.get('derive'), 'written before the modifications': h['pre_write'],
                             'modifications': [hist_label(o) for o in h['mods']], 'final writes': h['writes']}} if h else {})}
 
 
@@ -1054,6 +1220,47 @@ def oracle(ctx, case, report, prepared=None):
 CFGS = {'fixed': 1, 'upstream': 0}
 
 
+ACFGS = {'dict': 1, 'denseTable': 0}
+
+
+def model_align(ctx, flag, own, mesh):
+    t = C.Toks(ctx.driver.ask(f'c04.align {flag} {C.enc_list(own)} {C.enc_list(mesh)}'))
+    if t.tok() != 'ok':
+        raise RuntimeError('driver: c04.align failed')
+    return t.lst(lambda: t.nat() if t.nat() else None)
+
+
+def align_tie(ctx, case, snap, text, stream):
+    """objects with a negative id (no character-level model): the two data blocks of the real file vs the model of
+    `_align_data` over integer ids (`Model/UcdAlignInt.lean`, `alignPositions`): next to every mesh id the row the variable
+    holds at the position the model finds for that id (ACfg.dict = the tree; ACfg.denseTable = ids used as array positions)"""
+    lines = text.split('\n')
+    pos = 1 + len(snap['nodes'][0]) + len(snap['eids'])
+    for fam, mesh_ids, tabs in (('nodal', snap['nodes'][0], snap['nodal']), ('elemental', snap['eids'], snap['elem'])):
+        if not tabs:
+            continue
+        real_rows = [ln.split(' ') for ln in lines[pos + 1 + len(tabs):pos + 1 + len(tabs) + len(mesh_ids)]]
+        pos += 1 + len(tabs) + len(mesh_ids)
+        agree = {}
+        for name, flag in ACFGS.items():
+            if name == 'denseTable' and max(mesh_ids) > 10**5:
+                continue        # the table model has max id + 1 slots: only asked when that is small
+            want = [[str(i)] for i in mesh_ids]
+            for _, ids, rows in tabs:
+                where = model_align(ctx, flag, ids, mesh_ids)
+                for w, k in zip(want, where):
+                    w.extend([ftok(x) for x in rows[k]] if k is not None else ['<raises>'])
+            agree[name] = want == real_rows
+            if name == 'dict' and agree[name]:
+                break
+        ctx.count(f'tie: {fam} data block of the file vs the _align_data model over integer ids (c04.align)')
+        if not agree['dict']:
+            ctx.disagree(f'{stream}: {fam} data block of the written file != rows found by id as a key (model ACfg.dict)'
+                         + (' (tree behaves as ACfg.denseTable: ids used as array positions with wrap-around)'
+                            if agree.get('denseTable') else ''), brief(case),
+                         [' '.join(r) for r in real_rows[:4]], [' '.join(r) for r in want[:4]] if not agree.get('denseTable') else 'ACfg.denseTable')
+
+
 def run_case(ctx, case, cfg_mismatch, stream='main', prepared=None):
     # all streams (main, own-id-order, with or without a history) are inside the property's quantifier: failures are
     # reported through ctx.fail; objects whose public views disagree with each other are not (labelled stream `outside`)
@@ -1083,6 +1290,10 @@ def run_case(ctx, case, cfg_mismatch, stream='main', prepared=None):
     text, obs = r['text'], r['obs']
     if ctx.driver is None or text is None:
         return
+    if has_negative_id(r['snap']):
+        ctx.count('signed ids: object with a negative id: oracle (+ fresh object) only, no character-level model tie')
+        align_tie(ctx, case, r['snap'], text, stream)
+        return
     # (a) writer: the characters of the real file vs the characters `fileText` of the model writer, for each Cfg
     # (exactly one must reproduce every file); the model is fed the state of the object just BEFORE write()
     enc = model_fem(r['snap'])
@@ -1103,9 +1314,11 @@ def run_case(ctx, case, cfg_mismatch, stream='main', prepared=None):
     # model session holds for it (an earlier file at another path is still the earlier state, a re-written path the
     # final one, a second write the same characters)
     h = case.get('hist')
-    if h and (h.get('pre_write') or h.get('writes') == 2):
+    pre_snap = getattr(r['fd'], 'c04_state_at_earlier_write', None)
+    if pre_snap is not None and has_negative_id(pre_snap):
+        ctx.count('signed ids: earlier state with a negative id: session tie skipped')
+    elif h and (h.get('pre_write') or h.get('writes') == 2):
         steps, paths = [], {'mesh.inp': 0, 'earlier.inp': 1, 'second.inp': 2}
-        pre_snap = getattr(r['fd'], 'c04_state_at_earlier_write', None)
         if h.get('pre_write') and pre_snap is not None:
             steps += ['a ' + model_fem(pre_snap), 'w 0' if h['pre_write'] == 'same' else 'w 1']
         steps += [('i ' if steps else 'a ') + enc, 'w 0']
@@ -1139,6 +1352,128 @@ def run_case(ctx, case, cfg_mismatch, stream='main', prepared=None):
             break
 
 
+# ------------------------------------------------------------------ stream `large`: more than 65536 rows of one kind (oracle only)
+#
+# Block-wise writers / readers, 16-bit counters and "ids fit a small table" shortcuts are right on the small meshes of the
+# other streams.  One (quick) / a few (thorough) large-but-cheap objects: > 2**16 nodes with three elements, or > 2**16
+# elements over a few nodes, ids a shuffled dense range that may pass through zero, one nodal and one elemental variable in
+# private id orders, random bit patterns + special values.  The description is the parameter set (the arrays are rebuilt
+# from its seed); comparison by id, bit patterns, vectorised.
+
+NAN_BITS = np.uint64(0x7ff8000000000000)
+
+
+def _canon_bits(a):
+    a = np.ascontiguousarray(a, dtype=np.float64)
+    b = a.view(np.uint64).copy()
+    b[np.isnan(a)] = NAN_BITS
+    return b
+
+
+def _rand_floats(rng, shape):
+    x = rng.integers(0, 2**63, size=shape, dtype=np.int64).view(np.float64) * rng.choice([-1., 1.], size=shape)
+    k = rng.random(shape)
+    # mostly short numerals (the other streams are about the values; this one is about the rows, and must stay cheap)
+    x = np.where(k < .8, rng.integers(-50, 50, size=shape).astype(float), x)
+    sp = np.array([np.nan, -0.0, 0.0, 5e-324, 1e300, -1e-300, np.inf, -np.inf, 0.1, 1.7976931348623157e308])
+    return np.where(k > .93, sp[rng.integers(0, len(sp), size=shape)], x)
+
+
+def gen_large(rnd, shape=None):
+    """shape: 'nodes' (> 65536 nodes, 3 elements), 'elems' (a few nodes, > 65536 elements), 'both' (all four tables of the
+    file - nodes, elements, nodal data, elemental data - have more than 65536 rows: the quick tier's single case)"""
+    big = 2**16 + rnd.randint(1, 900)
+    shape = shape or rnd.choice(['nodes', 'elems', 'both'])
+    t = rnd.choice(['tri', 'tet', 'quad']) if shape == 'nodes' else rnd.choice(['line', 'line', 'tri'])
+    n_nodes, n_elems = {'nodes': (big, 3), 'elems': (rnd.randint(G.ARITY[t] + 1, 9), big),
+                        'both': (big, 2**16 + rnd.randint(1, 900))}[shape]
+    return {'large': {'seed': rnd.getrandbits(32), 'type': t, 'n_nodes': n_nodes, 'n_elems': n_elems,
+                      'node0': rnd.choice([1, 1, 0, -3, -n_nodes // 2, 10**6]), 'elem0': rnd.choice([1, 1, 0, -2, -n_elems // 2, 10**6]),
+                      'orders': [rnd.choice(['desc', 'shuffled', 'asc']), rnd.choice(['desc', 'shuffled', 'asc'])],
+                      'widths': [rnd.choice([1, 1, 2]), rnd.choice([1, 1, 2])]},
+            'nodes': [], 'blocks': {}, 'nodal_vars': [], 'elem_vars': [], 'pop_node': False, 'kind': 'large:' + t,
+            'order': 'shuf', 'id_style': 'dense-range'}
+
+
+def build_large(q):
+    from femio import FEMData, FEMAttribute, FEMElementalAttribute
+    rng = np.random.default_rng(q['seed'])
+    nn, ne, t = q['n_nodes'], q['n_elems'], q['type']
+    ar = G.ARITY[t]
+    nids = rng.permutation(np.arange(q['node0'], q['node0'] + nn))
+    xyz = _rand_floats(rng, (nn, 3))
+    step = int(rng.integers(1, max(2, nn // ar)))
+    conn = nids[(rng.integers(0, nn, size=ne)[:, None] + np.arange(ar)[None, :] * step) % nn]
+    eids = rng.permutation(np.arange(q['elem0'], q['elem0'] + ne))
+
+    def own(ids, how):
+        return np.sort(ids) if how == 'asc' else np.sort(ids)[::-1].copy() if how == 'desc' else rng.permutation(ids)
+    vn, ve = own(nids, q['orders'][0]), own(eids, q['orders'][1])
+    dn, de = _rand_floats(rng, (nn, q['widths'][0])), _rand_floats(rng, (ne, q['widths'][1]))
+    fd = FEMData(nodes=FEMAttribute('NODE', ids=nids.copy(), data=xyz.copy(), silent=True),
+                 elements=FEMElementalAttribute('ELEMENT', {t: FEMAttribute(t, ids=eids.copy(), data=conn.copy(), silent=True)}))
+    fd.nodal_data.update_data(vn.copy(), {'T': dn.copy()})
+    fd.elemental_data.update_data(ve.copy(), {'S': de.copy()})
+    return fd, {'nodes': (nids, xyz), 'elems': (eids, conn), 'T': (vn, dn), 'S': (ve, de)}
+
+
+def oracle_large(ctx, case, report):
+    from femio import FEMData
+    q = case['large']
+    (fd, want), err = real(build_large, q)
+    if err:
+        raise RuntimeError('harness: could not build the large FEMData: ' + err)
+    d = ctx.tmp / 'c04'
+    d.mkdir(exist_ok=True)
+    path = d / 'large.inp'
+    if path.exists():
+        path.unlink()
+    _, err = real(fd.write, 'ucd', path)
+    if err:
+        report('large:write-raises', f'write("ucd") raises {err}', {'error': err})
+        return
+    rd, err = real(FEMData.read_files, 'ucd', path)
+    path.unlink()
+    if err:
+        report('large:read-raises', f'read_files("ucd") of the written file raises {err}', {'error': err})
+        return
+
+    def differs(ids, data, wids, wdata, floats=True):
+        ids, wids = np.asarray(ids).astype(np.int64), np.asarray(wids).astype(np.int64)
+        if len(ids) != len(wids) or np.shape(data) != np.shape(wdata):
+            return f'{len(ids)} rows of shape {np.shape(data)[1:]} read, {len(wids)} of shape {np.shape(wdata)[1:]} written'
+        o, wo = np.argsort(ids, kind='stable'), np.argsort(wids, kind='stable')
+        if not np.array_equal(ids[o], wids[wo]):
+            return 'the ids read are not the ids written'
+        a, b = (np.asarray(data)[o], np.asarray(wdata)[wo])
+        bad = np.any((_canon_bits(a) != _canon_bits(b)) if floats else (a.astype(np.int64) != b.astype(np.int64)), axis=1)
+        if bad.any():
+            k = int(np.argmax(bad))
+            return (f'{int(bad.sum())} of {len(bad)} rows differ, first under id {int(ids[o][k])} (rank {k} of the sorted ids): '
+                    f'read {a[k].tolist()} written {b[k].tolist()}')
+        return None
+    checks = [('coordinates-differ', lambda: differs(rd.nodes.ids, rd.nodes.data, *want['nodes'])),
+              ('elements-differ', lambda: None if list(rd.elements.keys()) == [q['type']] else f'types read {list(rd.elements.keys())}'),
+              ('elements-differ', lambda: differs(rd.elements.ids, rd.elements.data, *want['elems'], floats=False)),
+              ('variables-differ:nodal', lambda: None if set(rd.nodal_data.keys()) - {'NODE'} == {'T'} else str(list(rd.nodal_data.keys()))),
+              ('values-differ:nodal', lambda: differs(rd.nodal_data['T'].ids, rd.nodal_data['T'].data, *want['T'])),
+              ('variables-differ:elem', lambda: None if set(rd.elemental_data.keys()) == {'S'} else str(list(rd.elemental_data.keys()))),
+              ('values-differ:elem', lambda: differs(rd.elemental_data['S'].ids, rd.elemental_data['S'].data, *want['S']))]
+    for sig, f in checks:
+        why, err = real(f)
+        if err or why:
+            report('large:' + sig, f'object with {q["n_nodes"]} nodes / {q["n_elems"]} {q["type"]} elements (more than 65536 rows of one '
+                   f'kind), read back after write("ucd"): {sig}: {why or err}', {'why': why, 'error': err})
+            if sig.startswith('variables'):
+                break
+    # write() leaves the caller's view of the object as it was
+    for (ids, data), a in zip((want['nodes'], want['elems'], want['T'], want['S']),
+                              (fd.nodes, fd.elements, fd.nodal_data['T'], fd.elemental_data['S'])):
+        if not np.array_equal(np.asarray(a.ids), ids) or not np.array_equal(_canon_bits(a.data) if data.dtype.kind == 'f' else a.data,
+                                                                          _canon_bits(data) if data.dtype.kind == 'f' else data):
+            report('large:write-changes-object', 'ids / data of the object after write("ucd") differ from those before', {'attribute': a.name})
+
+
 def own_order_families(case):
     """per family: number of distinct row orders (as they are in the built FEMData: generate_elemental_attribute sorts)
     that differ from the mesh order"""
@@ -1151,6 +1486,28 @@ def own_order_families(case):
         orders = {tuple(sorted(v['ids']) if v['how'] == 'generate' else v['ids']) for v in vars_}
         out[key] = len(orders - {tuple(mesh)})
     return out
+
+
+def count_ids(ctx, case, stream=''):
+    for part in case['id_style'].split('/')[1].split(',') if '/' in case['id_style'] else []:
+        ctx.count(f'{stream}signed ids: {"node" if part[0] == "n" else "element"} ids {part[2:]}')
+    nids = [i for i, _ in case['nodes']]
+    eids = [e for b in case['blocks'].values() for e, _ in b]
+    for what, ids in (('node', nids), ('element', eids)):
+        if min(ids) < 0:
+            ctx.count(f'{stream}signed ids: cases with a negative {what} id')
+            if any((max(ids) + 1 + k) in ids for k in ids if k < 0):
+                ctx.count(f'{stream}signed ids: cases where a negative {what} id -k lives next to the id max+1-k')
+        if 0 in ids:
+            ctx.count(f'{stream}signed ids: cases with the {what} id 0')
+        if max(ids) >= 2**31 or min(ids) < -2**31:
+            ctx.count(f'{stream}signed ids: cases with a {what} id outside the 32-bit range')
+    if len(nids) == len(eids):
+        ctx.count(f'{stream}square: as many elements as nodes')
+    for k, d in (case.get('id_dtypes') or {}).items():
+        ctx.count(f'{stream}id dtype: {k} ids handed over as {d}')
+    if not case.get('id_dtypes'):
+        ctx.count(f'{stream}id dtype: default (int64)')
 
 
 def count_renames(ctx, case, stream=''):
@@ -1176,6 +1533,9 @@ def count_history(ctx, case, stream=''):
     ctx.count(f'{stream}history: number of modifications: {len(h["mods"])}')
     for o in h['mods']:
         ctx.count(f'{stream}history: modification {hist_label(o)}')
+    if h.get('derive'):
+        ctx.count(f'{stream}history: the written object is derived from the constructed one by {h["derive"]}()'
+                  + (' after the parent was written' if h.get('pre_write') and h.get('pre_on') == 'parent' else ''))
     if h['via_file']:
         ctx.count(f'{stream}history: object read from a UCD file, then modified and written (write after read)')
     if h['pre_write']:
@@ -1206,7 +1566,8 @@ def run(ctx):
         if 'tet' in case['blocks'] and 'tet2' in case['blocks']:
             ctx.count('tet+tet2 in one mesh')
         ctx.count('storage-order:' + case['order'])
-        ctx.count('id-style:' + case['id_style'])
+        ctx.count('id-style:' + case['id_style'].split('/')[0])
+        count_ids(ctx, case)
         ctx.count(f"blocks nodal/elemental:{'absent' if case['pop_node'] else 'present'}/"
                   f"{'present' if case['elem_vars'] else 'absent'}")
         ctx.count(f"n_nodal_vars(+NODE):{len(case['nodal_vars'])}")
@@ -1235,7 +1596,15 @@ def run(ctx):
         for v in case['nodal_vars'] + case['elem_vars']:
             ctx.count('own-id-order: attached by ' + v['how'])
         count_renames(ctx, case, 'own-id-order: ')
+        count_ids(ctx, case, 'own-id-order: ')
         run_case(ctx, case, cfg_mismatch, stream='own-id-order', prepared=fd)
+    for k in range(ctx.n(1, 6)):
+        case = gen_large(ctx.rng, 'both' if ctx.quick else None)
+        q = case['large']
+        ctx.case(('large', str(q)), sample=q, nontrivial=True)
+        ctx.count('large: cases with more than 65536 ' + ' and '.join(
+            w for w, n in (('nodes', q['n_nodes']), ('elements', q['n_elems'])) if n > 2**16))
+        oracle_large(ctx, case, lambda sig, what, observed: ctx.fail(sig, what, case, observed))
     if ctx.driver is not None:
         agree = [c for c in CFGS if not cfg_mismatch[c]]
         ctx.extra['cfg_detected'] = agree
@@ -1263,7 +1632,7 @@ def shrink_history(ctx, f):
     if fails(case) is None:
         return
     h = case['hist']
-    for simpler in ({'via_file': False}, {'pre_write': None}, {'writes': 1}):
+    for simpler in ({'via_file': False}, {'derive': None}, {'pre_write': None}, {'writes': 1}):
         c = {**case, 'hist': {**h, **simpler}}
         if h.get(list(simpler)[0]) != list(simpler.values())[0] and fails(c):
             case, h = c, c['hist']
@@ -1283,12 +1652,15 @@ def shrink_history(ctx, f):
 def replay(ctx, obj):
     case = from_json(obj['input'])
     found = []
+    if case.get('large'):
+        oracle_large(ctx, case, lambda sig, what, observed: found.append({'signature': sig, 'what': what, 'observed': observed}))
+        return {'case': case['large'], 'failures': found, 'fails': bool(found)}
     r = oracle(ctx, case, lambda sig, what, observed: found.append({'signature': sig, 'what': what, 'observed': observed}))
     text = r.get('text')
     out = {'case': brief(case), 'failures': found, 'fails': bool(found), 'file_head': (text or '').split('\n')[:6]}
     if r.get('outside'):
         out['outside'] = r['outside']
-    if ctx.driver is not None and text is not None:
+    if ctx.driver is not None and text is not None and not has_negative_id(r['snap']):
         enc = model_fem(r['snap'])
         out['model_writer_agrees'] = {}
         for name, flag in CFGS.items():
